@@ -45,6 +45,11 @@ def evaluate(root, diff, props):
             elif r.returncode == 2:
                 why = (r.stderr.strip().splitlines() or [""])[-1][:300]
             results[p] = {"exit": r.returncode, "seconds": round(time.time() - t, 1), "why": why}
+            if vio:
+                try:
+                    results[p]["replay_doc"] = json.load(open(vio[0].split("replay=")[-1].strip()))
+                except Exception:
+                    pass
             print("   %s exit=%d %.0fs %s" % (p, r.returncode, time.time() - t, why[:140]), flush=True)
     finally:
         sh(["git", "-C", "/repo", "checkout", "--", "."])
@@ -75,6 +80,11 @@ def main():
         shutil.copy(demo, os.path.join(out, os.path.basename(demo)))
         results = evaluate(root, os.path.join(out, "patch.diff"), ALL)
         caught = [p for p, r in results.items() if r["exit"] == 1]
+        # keep the shrunk failures as replay files (regression tier): the target property's, else the first
+        for p, r in results.items():
+            doc = r.pop("replay_doc", None)
+            if doc is not None and isinstance(doc.get("grammar"), dict) and doc["grammar"].get("text") and (p == ID or (ID not in caught and p == caught[0])):
+                json.dump(doc, open(os.path.join(out, "replay_%s.json" % p), "w"), indent=1, ensure_ascii=False)
         commit = sh(["git", "-C", root, "rev-parse", "--short", "HEAD"]).stdout.strip()
         meta = {
             "property": ID,
